@@ -8,7 +8,7 @@ CONSTANTS
   EnableDebugWrites = FALSE
   SrcVals = {0, 255}
   Dts = {2, 5}
-  CfgSel = "base"
+  CfgSel = "fb"
 VIEW View
 CHECK_DEADLOCK FALSE
 INVARIANTS
